@@ -29,12 +29,18 @@ PURE = re.compile(r"(wrapping_|saturating_|from_le_bytes|from_be_bytes|From::fro
 RET_OK = re.compile(r"^(u8|u16|u32|u64|usize|i32|bool|std::cmp::Ordering|preflate_rs::hash_chain::InternalPosition|preflate_rs::preflate_token::PreflateTokenReference|\(u8, u32\))$")
 
 
+def _flagless(l):
+    # whether a flag is written as a literal in two branches or from a variable is a matter of style: the grammar records that
+    # a flag of this context is written here, the inclusion rules (C02/M1, C08/P1) keep the value
+    return (l[0], l[1], None) if l and l[0] == "mis" and len(l) == 3 else l
+
+
 def _relabel(l):
-    return tuple((x[1] if isinstance(x, tuple) and len(x) == 2 and isinstance(x[0], str) else x) for x in l)
+    return tuple((x[1] if isinstance(x, tuple) and len(x) == 2 and isinstance(x[0], str) else x) for x in _flagless(l))
 
 
 def _relabel_by_name(l):
-    return tuple((x[0] if isinstance(x, tuple) and len(x) == 2 and isinstance(x[0], str) else x) for x in l)
+    return tuple((x[0] if isinstance(x, tuple) and len(x) == 2 and isinstance(x[0], str) else x) for x in _flagless(l))
 
 
 def _ctx_grammar(F, entry):
@@ -66,12 +72,15 @@ DECIDED_ELSEWHERE = {
 def pure_leaves(F):
     roots = F.roots_for(RECON)
     par = F.reach(roots)
-    defs = sorted({F.inst(i)["def"] for i in par if F.inst(i)["local"] and F.inst(i)["kind"] == "item" and F.inst(i)["def"] in F.bodies})
+    defs = {F.inst(i)["def"] for i in par if F.inst(i)["local"] and F.inst(i)["kind"] == "item" and F.inst(i)["def"] in F.bodies}
+    # closures written inside those functions are part of them
+    defs |= {k for k in F.bodies if "::{closure#" in k and k.split("::{closure#")[0] in defs}
+    defs = sorted(defs)
     cand = {}
     for d in defs:
         b = F.bodies[d]
-        if closed.has_loop(b) or not RET_OK.match(b.local_ty(0)):
-            continue
+        if closed.has_loop(b) or not RET_OK.match(b.local_ty(0)) or "{closure#" in d:
+            continue            # closures are pieces of their parent: they go into the signatures, not into closed forms
         ok = True
         locs = set()
         for bb, t in b.calls():
@@ -282,52 +291,93 @@ def _only_logs(b, x, y):
     return True
 
 
+def _op_ty(b, op):
+    """Type of the value an operand denotes, through derefs of references."""
+    xp = op_place(op)
+    if xp is None:
+        k = op_const(op)
+        return k.get("ty", "?") if isinstance(k, dict) else "?"
+    ty = flow.strip_lifetimes(b.local_ty(xp["l"]))
+    for e in xp["p"]:
+        if e == "*":
+            ty = re.sub(r"^&(mut )?", "", ty)
+        else:
+            return "?"
+    return ty
+
+
+def _cmp_statements(b):
+    """Comparisons that are part of the algorithm: every `x op y` value, whether it is branched on at once, returned from a
+    closure (`take_while(|v| v == 0)`) or combined first; not those of assertions and logging."""
+    out = []
+    for sb in sorted(b.normal_blocks()):
+        for st in b.stmts(sb):
+            if st.get("k") != "assign" or st["r"].get("k") != "binop" or st["r"]["op"] not in ("Lt", "Le", "Gt", "Ge", "Eq", "Ne"):
+                continue
+            if any(m in _ASSERT_MACROS for m in macro_names(st.get("exp"))):
+                continue
+            if not st["p"]["p"] and _feeds_only_assert(b, st["p"]["l"]):
+                continue
+            if not st["p"]["p"]:
+                us0 = flow.uses(b, st["p"]["l"])
+                if us0 and all(u[0] != "stmt" and u[2]["k"] == "assert" for u in us0):
+                    continue            # the compiler's own bounds / overflow check
+            if not st["p"]["p"]:
+                # `if cond { println!(..) }`
+                us = flow.uses(b, st["p"]["l"])
+                sw = [u[2] for u in us if u[0] != "stmt" and u[2]["k"] == "switch"]
+                if sw and len(us) == len(sw) and all(len(t["targets"]) == 1 and (_only_logs(b, t["targets"][0][1], t["otherwise"]) or _only_logs(b, t["otherwise"], t["targets"][0][1])) for t in sw):
+                    continue
+            out.append((sb, st))
+    return out
+
+
 def thresholds(F, fns):
     """Global multiset of normalised `value vs constant` decisions in the given (looping) functions.
     A comparison of an unsigned value X with a constant K is a cut of X's domain: X < K, X <= K-1, !(X >= K) ... all
     normalise to ("cut", K) (the boundary between the two outcomes); X == K / X != K to ("eq", K), except against 0
-    where they are the cut at 1.  Variable names, branch polarity and the function the test lives in do not matter."""
+    where they are the cut at 1.  Variable names, branch polarity, the function (or closure) the test lives in and whether
+    the outcome is branched on at once or handed to an iterator adaptor do not matter."""
     from collections import Counter
     cnt = Counter()
     for d in fns:
         b = F.bodies[d]
+        for sb, st0 in _cmp_statements(b):
+            r = st0["r"]
+            kl, kr = flow.const_eval(b, r["l"]), flow.const_eval(b, r["r"])
+            if (kl is None) == (kr is None):
+                continue
+            op = r["op"]
+            if kl is not None:      # K op X  ->  X op' K
+                op = {"Lt": "Gt", "Le": "Ge", "Gt": "Lt", "Ge": "Le"}.get(op, op)
+                k, xop = kl, r["r"]
+            else:
+                k, xop = kr, r["l"]
+            ty = _op_ty(b, xop)
+            unsigned = ty.startswith("u")
+            if op in ("Lt", "Ge"):
+                atom = ("cut", k)
+            elif op in ("Le", "Gt"):
+                atom = ("cut", k + 1)
+            elif k == 0 and unsigned:
+                atom = ("cut", 1)
+            else:
+                atom = ("eq", k)
+            cnt[(ty,) + atom] += 1
         for sb in sorted(b.normal_blocks()):
             st = b.term(sb)
             if st["k"] != "switch":
                 continue
             tg = [x for _, x in st["targets"]] + [st["otherwise"]]
             if any(_panics(b, x) for x in tg):
-                continue        # assertion, not a decision of the algorithm
-            if len(tg) == 2 and (_only_logs(b, tg[0], tg[1]) or _only_logs(b, tg[1], tg[0])):
-                continue        # `if cond { println!(..) }`: both outcomes continue identically
+                continue
             dp = op_place(st["d"])
             if dp is None:
                 continue
             dd = b.single_def(dp["l"]) if not dp["p"] else None
-            if dd and dd[2] == "assign" and dd[3]["k"] == "binop" and dd[3]["op"] in ("Lt", "Le", "Gt", "Ge", "Eq", "Ne"):
-                r = dd[3]
-                kl, kr = flow.const_eval(b, r["l"]), flow.const_eval(b, r["r"])
-                if (kl is None) == (kr is None):
-                    continue
-                op = r["op"]
-                if kl is not None:      # K op X  ->  X op' K
-                    op = {"Lt": "Gt", "Le": "Ge", "Gt": "Lt", "Ge": "Le"}.get(op, op)
-                    k, xop = kl, r["r"]
-                else:
-                    k, xop = kr, r["l"]
-                xp = op_place(xop)
-                ty = b.local_ty(xp["l"]) if xp is not None and not xp["p"] else "?"
-                unsigned = ty.startswith("u")
-                if op in ("Lt", "Ge"):
-                    atom = ("cut", k)
-                elif op in ("Le", "Gt"):
-                    atom = ("cut", k + 1)
-                elif k == 0 and unsigned:
-                    atom = ("cut", 1)
-                else:
-                    atom = ("eq", k)
-                cnt[(ty,) + atom] += 1
-            elif len(st["targets"]) >= 2 and not (dd and dd[2] == "assign" and dd[3]["k"] == "discr"):
+            if dd and dd[2] == "assign" and dd[3]["k"] == "binop":
+                continue
+            if len(st["targets"]) >= 2 and not (dd and dd[2] == "assign" and dd[3]["k"] == "discr"):
                 ty = st.get("dty", "?")
                 if re.match(r"^[ui](8|16|32|64|size)$", ty):
                     cnt[(ty, "switch", tuple(sorted(v for v, _ in st["targets"])))] += 1
@@ -404,6 +454,8 @@ def arith(F, fns):
             t = b.term(bb)
             if t["k"] == "call":
                 n = strip_generics(callee_def(t))
+                if re.search(r"Iterator::take$", n) and len(t["args"]) == 2 and flow.const_eval(b, t["args"][1]) is not None:
+                    cnt[("min", flow.const_eval(b, t["args"][1]))] += 1          # at most K elements: the iterator form of min(len, K)
                 m = _NUM_METHODS.search(n)
                 if m and re.search(r"(^|::)(core|std)::|num::|cmp::", n) and not any(x in _ASSERT_MACROS for x in macro_names(t.get("exp"))):
                     ks = [flow.const_eval(b, a) for a in t["args"]]
@@ -457,6 +509,8 @@ def literals(F, fns):
                     continue
                 if _NUM_METHODS.search(n) and re.search(r"(^|::)(core|std)::|num::|cmp::", n):
                     continue
+                if re.search(r"Iterator::take$", n):
+                    continue            # counted by `arith` as min(K)
                 for a in t["args"]:
                     v = lit(a)
                     if v is not None:
@@ -481,26 +535,32 @@ def skeleton(F, fns):
         if not _CORE.match(d):
             continue
         b = F.bodies[d]
+        for _sb, st0 in _cmp_statements(b):
+            r = st0["r"]
+            ty = _op_ty(b, r["l"])
+            if ty == "?":
+                ty = _op_ty(b, r["r"])
+            if ty in ("usize", "?") and r["op"] not in ("Eq", "Ne"):
+                continue        # position / loop-bound comparisons: an index loop and its iterator form differ in these only
+            cnt[("cmp", "eq" if r["op"] in ("Eq", "Ne") else "ord", ty)] += 1
         for sb in sorted(b.normal_blocks()):
             st = b.term(sb)
-            if st["k"] == "switch" and len(st["targets"]) == 1:
-                tg = [st["targets"][0][1], st["otherwise"]]
-                if any(_panics(b, x) for x in tg) or _only_logs(b, tg[0], tg[1]) or _only_logs(b, tg[1], tg[0]):
-                    continue
-                dp = op_place(st["d"])
-                dd = b.single_def(dp["l"]) if dp is not None and not dp["p"] else None
-                if dd and dd[2] == "assign" and dd[3]["k"] == "binop" and dd[3]["op"] in ("Lt", "Le", "Gt", "Ge", "Eq", "Ne"):
-                    r = dd[3]
-                    xp = op_place(r["l"]) or op_place(r["r"])
-                    ty = b.local_ty(xp["l"]) if xp is not None and not xp["p"] else "?"
-                    cnt[("cmp", "eq" if r["op"] in ("Eq", "Ne") else "ord", ty)] += 1
+            if False:
+                pass
             elif st["k"] == "call":
                 n = strip_generics(callee_def(st))
+                if re.search(r"cmp::PartialEq::(eq|ne)$", n) and len(st["args"]) == 2:
+                    # `a == b` on references (closure parameters of iterator adaptors) compiles to a call
+                    ap = op_place(st["args"][0])
+                    ty = re.sub(r"^(&(mut )?)+", "", flow.strip_lifetimes(b.local_ty(ap["l"]))) if ap is not None and not ap["p"] else "?"
+                    if re.match(r"^[ui](8|16|32|64|128|size)$|^bool$", ty):
+                        cnt[("cmp", "eq", ty)] += 1
                 if re.search(r"ops::Index(Mut)?>?::index(_mut)?$|ops::index::Index(Mut)?::index(_mut)?$", n) and len(st["args"]) == 2:
                     ap = op_place(st["args"][1])
                     ty = b.local_ty(ap["l"]) if ap is not None and not ap["p"] else ""
                     m = re.search(r"ops::(RangeInclusive|RangeToInclusive|RangeFrom|RangeTo|RangeFull|Range)\b", ty)
-                    cnt[("slice", m.group(1) if m else "index")] += 1
+                    if os.environ.get("PFA_SKELETON_ACCESS") == "1":
+                        cnt[("slice", m.group(1) if m else "index")] += 1
             for s in b.stmts(sb):
                 if s.get("k") != "assign":
                     continue
@@ -521,7 +581,7 @@ def skeleton(F, fns):
                     if pp is not None:
                         places.append(pp)
                 for pl in places:
-                    if any(isinstance(e, dict) and "i" in e for e in pl["p"]):
+                    if any(isinstance(e, dict) and "i" in e for e in pl["p"]) and os.environ.get("PFA_SKELETON_ACCESS") == "1":
                         cnt[("at", 1)] += 1
     return [[list(k), v] for k, v in sorted(cnt.items(), key=lambda kv: repr(kv[0]))]
 
